@@ -23,14 +23,18 @@ type Case struct {
 }
 
 func runCase(c Case, s *hx.Sink) string {
-	r := imapx.NewRunner()
-	var steps []string
-	for i, o := range c.Ops {
-		if c.GC && i%5 == 2 {
-			runtime.GC()
-			runtime.GC()
+	var before func(i int)
+	if c.GC {
+		before = func(i int) {
+			if i%5 == 2 {
+				runtime.GC()
+				runtime.GC()
+			}
 		}
-		ob := r.Do(o)
+	}
+	var steps []string
+	for i, ob := range imapx.RunGuarded(c.Ops, before) {
+		o := c.Ops[i]
 		s.Count("op:" + o.K)
 		s.Count("out:" + strings.SplitN(ob.Out, " ", 2)[0])
 		if ob.Deleted > 0 {
@@ -38,9 +42,10 @@ func runCase(c Case, s *hx.Sink) string {
 		}
 		steps = append(steps, fmt.Sprintf("St (%s) (%s) %s %s %s %s", imapx.CoqOp(o), ob.Out,
 			hx.Nat(ob.Nodes), hx.Nat(ob.Deleted), hx.Z(int64(ob.SumRef)), hx.Bool(ob.HeadOK)))
-		if ob.Panicked {
+		if ob.Hung {
+			s.Count("hung")
+		} else if ob.Panicked {
 			s.Count("panic")
-			break
 		}
 	}
 	return fmt.Sprintf("mkCase %s %s", hx.N(c.ID), hx.List(steps))
@@ -74,6 +79,10 @@ func main() {
 	}
 	id := uint64(0)
 	emit := func(ops []imapx.Op, gc bool, kind string) {
+		if imapx.HungCases >= 3 { // every hung history leaves a spinning goroutine behind: the check has failed, stop here
+			s.Count("skipped-after-3-hung-histories")
+			return
+		}
 		id++
 		c := Case{ID: id, Ops: ops, GC: gc}
 		s.Add(c, runCase(c, s), nontrivial(c))
